@@ -42,6 +42,9 @@ def cases(tier):
     for off in range(0, 4):
         out.append({"name": "embed_1d_%d_off%d" % (n1, off), "what": "embed", "shape": (n1,), "big": (n1 + 3,), "offset": (off,)})
     out.append({"name": "assd_embed_1d", "what": "assd_embed", "n": 3, "N": 5 if tier == "quick" else 6})
+    # semantic input (instances approximated first): a one-slice volume vs. the same volume padded along its singleton axis
+    for off in ((1,) if tier == "quick" else (0, 1)):
+        out.append({"name": "embed_semantic_1x1x3_in_2x1x3_off%d" % off, "what": "embed", "shape": (1, 1, 3), "big": (2, 1, 3), "offset": (off, 0, 0), "input_type": "SEMANTIC"})
     if tier == "quick":
         # one slice of the 2x2 transposition cases of the thorough tier (first voxels fixed to 1/1): its witnesses are the ones replayed
         # under mixed memory layouts on the real package
@@ -178,10 +181,15 @@ def run_case(case):
     base += [thr >= 0, thr <= 1]
     if case.get("fix2"):
         base += [pv[0] == case["fix2"][0], rv[0] == case["fix2"][1]]
-    cfg = {"input_type": "UNMATCHED_INSTANCE", "matching_metric": "IOU", "decision_metric": None, "metrics": METRICS}
+    cfg = {"input_type": case.get("input_type", "UNMATCHED_INSTANCE"), "matching_metric": "IOU", "decision_metric": None, "metrics": METRICS}
+    semantic = cfg["input_type"] == "SEMANTIC"
+    if semantic:
+        cfg["backend"] = None
+        base.append(thr > z3.Q(1, 2))      # IoU above 1/2: the matching is unique whatever the instances are, no tie analysis needed
+        base += [v <= 1 for v in rv]       # reference with one semantic class, prediction with two (keeps the case within the quick budget)
 
     def decode(m):
-        d = {"what": what, "shape": list(shape), "pred": [jsonable(v, m) for v in pv], "ref": [jsonable(v, m) for v in rv], "thr_m": jsonable(thr, m)}
+        d = {"what": what, "shape": list(shape), "pred": [jsonable(v, m) for v in pv], "ref": [jsonable(v, m) for v in rv], "thr_m": jsonable(thr, m), "input_type": cfg["input_type"]}
         d.update({k: case[k] for k in ("big", "offset", "op") if k in case})
         return d
     h = H(PROP, case["name"], decode, replay_kind="tworun", max_witnesses=40)
@@ -205,9 +213,10 @@ def run_case(case):
         except Exception as e:
             h.fail("evaluation_completes", detail="%s: %s" % (type(e).__name__, str(e)[:120]))
             return
-        C = e2e.Counts(pv, rv, 2, 2)
-        if e2e.oracle(C, cfg, SNum(thr), None) is None:
-            return          # tied competing candidates: the matching is not uniquely determined
+        if not semantic:
+            C = e2e.Counts(pv, rv, 2, 2)
+            if e2e.oracle(C, cfg, SNum(thr), None) is None:
+                return          # tied competing candidates: the matching is not uniquely determined
         name = "unchanged_by_embedding" if what == "embed" else "unchanged_by_" + case["op"]
         h.ok(name + "_counts", (a["tp"], a["fp"], a["fn"], a["n_pred"], a["n_ref"]) == (b["tp"], b["fp"], b["fn"], b["n_pred"], b["n_ref"]),
              detail={"original": [a["tp"], a["fp"], a["fn"]], "transformed": [b["tp"], b["fp"], b["fn"]]})
@@ -262,7 +271,9 @@ def real_tworun(case, mode, expect):
     shape = tuple(case["shape"])
     pred = np.array(case["pred"], dtype=np.uint8).reshape(shape)
     ref = np.array(case["ref"], dtype=np.uint8).reshape(shape)
-    cfg = {"input_type": "UNMATCHED_INSTANCE", "matching_metric": "IOU", "matching_threshold": fl(case["thr_m"]), "decision_metric": None, "metrics": METRICS}
+    cfg = {"input_type": case.get("input_type", "UNMATCHED_INSTANCE"), "matching_metric": "IOU", "matching_threshold": fl(case["thr_m"]), "decision_metric": None, "metrics": METRICS}
+    if cfg["input_type"] == "SEMANTIC":
+        cfg["backend"] = None
     want = RC.reference_pipeline(pred, ref, cfg)
     if not want["unique"]:
         return {"match": True, "violates": False, "reason": None, "observed": "tie"}
